@@ -39,7 +39,7 @@ func TestMain(m *testing.M) { vkit.Main(m, "C08") }
 // case description (JSON-serialisable replay unit)
 
 type Op struct {
-	Kind   string `json:"kind"`             // connect hb hbold close tick sweep
+	Kind   string `json:"kind"`             // connect relogin hb hbold close tick sweep
 	Client int    `json:"client,omitempty"` // connect, hb
 	Node   int    `json:"node,omitempty"`   // connect
 	Mode   string `json:"mode,omitempty"`   // connect: good | bad-secret | tunnel-type | no-handshake
@@ -54,6 +54,9 @@ type Case struct {
 	Nodes int  `json:"nodes"`
 	TTLms int  `json:"ttl_ms"` // registration lifetime; 0 = pass 0 to NewConnectionStateStore (documented default 5 min)
 	Ops   []Op `json:"ops"`
+	// nodes whose cloud control cannot read or write the client runtime state (tunnox:runtime:client:state:*) for the
+	// whole history, while the connection-state records in the same store are healthy
+	CloudOut []int `json:"cloud_out,omitempty"`
 }
 
 const (
@@ -76,6 +79,13 @@ func genCase(t *rapid.T) Case {
 	c := Case{Nodes: rapid.IntRange(2, 3).Draw(t, "nodes")}
 	c.TTLms = rapid.SampledFrom([]int{shortTTLms, shortTTLms, shortTTLms, 30000, 0}).Draw(t, "ttl")
 	short := c.TTLms == shortTTLms
+	if rapid.IntRange(0, 3).Draw(t, "cloudOutage") == 0 {
+		for nd := 0; nd < c.Nodes; nd++ {
+			if rapid.Bool().Draw(t, "cloudOutNode") {
+				c.CloudOut = append(c.CloudOut, nd)
+			}
+		}
+	}
 	type gconn struct {
 		client int
 		node   int
@@ -87,7 +97,7 @@ func genCase(t *rapid.T) Case {
 	newest := [nClients]int{-1, -1}
 	n := rapid.IntRange(4, 16).Draw(t, "nops")
 	ticks := 0
-	kinds := []string{"connect", "connect", "connect", "connect", "hb", "hbold", "close", "close", "close", "tick", "tick", "tick", "streak", "sweep", "lapse"}
+	kinds := []string{"connect", "connect", "connect", "connect", "hb", "hbold", "close", "close", "close", "tick", "tick", "tick", "streak", "sweep", "lapse", "relogin"}
 	streaks, lapses := 0, 0
 	for i := 0; i < n; i++ {
 		k := rapid.SampledFrom(kinds).Draw(t, "kind")
@@ -115,6 +125,15 @@ func genCase(t *rapid.T) Case {
 		if k == "hbold" && len(superseded) == 0 {
 			k = "connect"
 		}
+		var goodOpen []int
+		for _, j := range openIdx {
+			if conns[j].good {
+				goodOpen = append(goodOpen, j)
+			}
+		}
+		if k == "relogin" && len(goodOpen) == 0 {
+			k = "connect"
+		}
 		var hbable []int
 		for x := 0; x < nClients; x++ {
 			if newest[x] >= 0 && conns[newest[x]].open {
@@ -140,6 +159,15 @@ func genCase(t *rapid.T) Case {
 			c.Ops = append(c.Ops, op)
 		case "hb":
 			c.Ops = append(c.Ops, Op{Kind: "hb", Client: hbable[rapid.IntRange(0, len(hbable)-1).Draw(t, "hbClient")], Fault: genFault(t)})
+		case "relogin":
+			// the client authenticates again on a connection it already holds (superseded ones preferred: the client
+			// fell back to its old connection); from now on that connection is its current one
+			j := goodOpen[rapid.IntRange(0, len(goodOpen)-1).Draw(t, "reloginConn")]
+			if len(superseded) > 0 && rapid.Bool().Draw(t, "preferSuperseded") {
+				j = superseded[rapid.IntRange(0, len(superseded)-1).Draw(t, "reloginOld")]
+			}
+			newest[conns[j].client] = j
+			c.Ops = append(c.Ops, Op{Kind: "relogin", Conn: j})
 		case "hbold":
 			// a late heartbeat on a superseded connection that its node still believes in
 			c.Ops = append(c.Ops, Op{Kind: "hbold", Conn: superseded[rapid.IntRange(0, len(superseded)-1).Draw(t, "oldConn")]})
@@ -169,7 +197,11 @@ func genCase(t *rapid.T) Case {
 				c.Ops = append(c.Ops, Op{Kind: "tick", FF: rapid.IntRange(0, 3).Draw(t, "ff") > 0})
 			}
 			for _, x := range hbable {
-				c.Ops = append(c.Ops, Op{Kind: "hb", Client: x})
+				if rapid.IntRange(0, 2).Draw(t, "reloginAfterLapse") == 0 {
+					c.Ops = append(c.Ops, Op{Kind: "relogin", Conn: newest[x]})
+				} else {
+					c.Ops = append(c.Ops, Op{Kind: "hb", Client: x})
+				}
 			}
 		case "tick":
 			ticks++
@@ -262,6 +294,7 @@ func (f faultyShared) Close() error { return nil }
 // readArm makes one node's store fail one read of a tunnox:conn_state: key (a transient storage error).
 type readArm struct {
 	mu    sync.Mutex
+	cloud bool // the cloud control's client runtime state is unreachable through this node's store
 	armed bool
 	skip  int
 	hits  int
@@ -292,6 +325,15 @@ func (a *readArm) fails(key string) error {
 	return fmt.Errorf("injected: transient storage read error")
 }
 
+func (a *readArm) cloudDown(key string) error {
+	a.mu.Lock()
+	defer a.mu.Unlock()
+	if a.cloud && strings.HasPrefix(key, "tunnox:runtime:client:state:") {
+		return fmt.Errorf("injected: client runtime state unavailable")
+	}
+	return nil
+}
+
 // one facade per backend kind: the real storage with a Get that can fail once
 type faultMem struct {
 	*memory.Storage
@@ -302,7 +344,17 @@ func (f faultMem) Get(key string) (any, error) {
 	if err := f.arm.fails(key); err != nil {
 		return nil, err
 	}
+	if err := f.arm.cloudDown(key); err != nil {
+		return nil, err
+	}
 	return f.Storage.Get(key)
+}
+
+func (f faultMem) Set(key string, value any, ttl time.Duration) error {
+	if err := f.arm.cloudDown(key); err != nil {
+		return err
+	}
+	return f.Storage.Set(key, value, ttl)
 }
 
 type faultHyb struct {
@@ -314,7 +366,17 @@ func (f faultHyb) Get(key string) (any, error) {
 	if err := f.arm.fails(key); err != nil {
 		return nil, err
 	}
+	if err := f.arm.cloudDown(key); err != nil {
+		return nil, err
+	}
 	return f.Storage.Get(key)
+}
+
+func (f faultHyb) Set(key string, value any, ttl time.Duration) error {
+	if err := f.arm.cloudDown(key); err != nil {
+		return err
+	}
+	return f.Storage.Set(key, value, ttl)
 }
 
 type faultRedis struct {
@@ -326,7 +388,17 @@ func (f faultRedis) Get(key string) (any, error) {
 	if err := f.arm.fails(key); err != nil {
 		return nil, err
 	}
+	if err := f.arm.cloudDown(key); err != nil {
+		return nil, err
+	}
 	return f.Storage.Get(key)
+}
+
+func (f faultRedis) Set(key string, value any, ttl time.Duration) error {
+	if err := f.arm.cloudDown(key); err != nil {
+		return err
+	}
+	return f.Storage.Set(key, value, ttl)
 }
 
 func (f faultyShared) Set(key string, value any, ttl time.Duration) error {
@@ -399,18 +471,20 @@ type bclient struct {
 }
 
 type backend struct {
-	arms    []*faultArm // per node; tiered backend only
-	rarms   []*readArm  // per node; every backend
-	ttl     time.Duration
-	lapsed  bool // a heartbeat arrived after the registration had provably lapsed
-	readHit bool
-	faulted bool
-	name    string
-	nodes   []*miniserver.Server
-	mr      *miniredis.Miniredis
-	conns   []*bconn
-	clients [nClients]*bclient
-	dead    bool
+	arms       []*faultArm // per node; tiered backend only
+	rarms      []*readArm  // per node; every backend
+	ttl        time.Duration
+	lapsed     bool // a heartbeat arrived after the registration had provably lapsed
+	relogins   int
+	reloginOld bool // a second handshake on a superseded connection made it the current one again
+	readHit    bool
+	faulted    bool
+	name       string
+	nodes      []*miniserver.Server
+	mr         *miniredis.Miniredis
+	conns      []*bconn
+	clients    [nClients]*bclient
+	dead       bool
 	// evidence
 	reconnectOtherNode bool
 	oldClosedLate      bool
@@ -453,6 +527,11 @@ func buildBackends(c Case) []*backend {
 	var out []*backend
 	for _, name := range backendNames {
 		b := &backend{name: name, rarms: rarms[name], ttl: c.ttl()}
+		for _, nd := range c.CloudOut {
+			if nd < maxNodes {
+				b.rarms[nd].cloud = true
+			}
+		}
 		switch name {
 		case "redis":
 			b.mr = redisA.mr
@@ -589,6 +668,49 @@ func (b *backend) connect(op Op, seq int) *failure {
 	case "no-handshake":
 	}
 	cl.Drain()
+	return nil
+}
+
+// relogin performs a second successful control handshake on an open, already authenticated connection.
+func (b *backend) relogin(k, seq int) *failure {
+	if k >= len(b.conns) {
+		return nil
+	}
+	bc := b.conns[k]
+	if bc.cl == nil || !bc.open || !bc.authed {
+		return nil
+	}
+	x := b.clients[bc.client]
+	dead := func() *failure {
+		// the node itself has dropped this transport (a same-node re-login kicks the superseded connection): the
+		// adapter's read loop would fail and close the connection, which is what the harness does here
+		bc.cl.CloseByPeer()
+		b.noteClosed(bc)
+		return nil
+	}
+	if bc.cl.Far.IsClosed() || bc.cl.Near.IsClosed() {
+		return dead()
+	}
+	bc.cl.Drain()
+	tb := time.Now()
+	r, err := bc.cl.Login(x.id, x.secret, "control")
+	ta := time.Now()
+	if r == nil && (bc.cl.Far.IsClosed() || bc.cl.Near.IsClosed()) {
+		return dead()
+	}
+	if err != nil || r == nil || !r.Success {
+		return &failure{"C08/unclassified/valid-login-refused/" + b.name, fmt.Sprintf("second handshake on the client's open connection %s refused: %+v %v", bc.cl.ConnID, r, err)}
+	}
+	bc.cl.Drain()
+	if x.latest != bc {
+		b.reloginOld = true
+	}
+	if tb.After(x.refHi.Add(b.ttl + guard)) {
+		b.lapsed = true
+	}
+	bc.seq = seq
+	x.latest, x.refLo, x.refHi, x.hsLo, x.hbSince, x.oldCleanup, x.contested = bc, tb, ta, tb, false, false, false
+	b.relogins++
 	return nil
 }
 
@@ -852,6 +974,13 @@ func runCase(c Case) *result {
 					b.conns = append(b.conns, &bconn{}) // keep ordinals aligned
 				}
 			}
+		case "relogin":
+			seq++
+			for _, b := range bs {
+				if !b.dead {
+					fail(b, b.relogin(op.Conn, seq))
+				}
+			}
 		case "hb":
 			for _, b := range bs {
 				if !b.dead {
@@ -905,7 +1034,7 @@ func runCase(c Case) *result {
 
 func caseSig(c Case) string {
 	var sb strings.Builder
-	fmt.Fprintf(&sb, "%d/%d", c.Nodes, c.TTLms)
+	fmt.Fprintf(&sb, "%d/%d/%v", c.Nodes, c.TTLms, c.CloudOut)
 	for _, op := range c.Ops {
 		fmt.Fprintf(&sb, "|%s.%d.%d.%s.%d.%v.%v", op.Kind, op.Client, op.Node, op.Mode, op.Conn, op.HB, op.FF)
 	}
@@ -937,6 +1066,12 @@ func check(t vkit.TB, c Case) {
 		if b.lateOldHB {
 			vkit.Class("feat:late-heartbeat-on-superseded-conn/" + b.name)
 		}
+		if b.relogins > 0 {
+			vkit.Class("feat:second-handshake-on-authenticated-conn/" + b.name)
+		}
+		if b.reloginOld {
+			vkit.Class("feat:second-handshake-on-superseded-conn/" + b.name)
+		}
 		if b.lapsed {
 			vkit.Class("feat:heartbeat-after-lapsed-registration/" + b.name)
 		}
@@ -952,7 +1087,7 @@ func check(t vkit.TB, c Case) {
 		if b.sweptLast {
 			vkit.Class("feat:stale-sweep-closed-last-conn/" + b.name)
 		}
-		nt := (b.reconnectOtherNode && b.oldClosedLate) || b.hbSpan || b.lateOldHB || b.sweptLast || b.lapsed || b.readHit
+		nt := (b.reconnectOtherNode && b.oldClosedLate) || b.hbSpan || b.lateOldHB || b.sweptLast || b.lapsed || b.readHit || b.reloginOld
 		vkit.Case(class+"/"+b.name, nt, b.name+"#"+sig)
 		vkit.AddExtra("lookups_resolved_fresh", int64(b.resolved))
 		vkit.AddExtra("lookups_not_connected", int64(b.gone))
@@ -965,6 +1100,9 @@ func check(t vkit.TB, c Case) {
 		if op.Kind == "tick" && !op.FF {
 			vkit.Class("feat:tick-with-lagging-store-clock")
 		}
+	}
+	if len(c.CloudOut) > 0 {
+		vkit.Class("feat:cloud-runtime-state-outage")
 	}
 	switch c.TTLms {
 	case 0:
@@ -1014,6 +1152,12 @@ func TestScenarios(t *testing.T) {
 		// the registration lapses during a heartbeat gap; the resumed heartbeat must rebuild it; late cleanup of the old node with a transient read error
 		{Nodes: 2, TTLms: shortTTLms, Ops: []Op{{Kind: "connect", Client: 0, Node: 0, Mode: "good"}, {Kind: "tick", FF: true}, {Kind: "tick", FF: true}, {Kind: "tick", FF: true}, {Kind: "tick", FF: true},
 			{Kind: "hb", Client: 0}, {Kind: "connect", Client: 0, Node: 1, Mode: "good"}, {Kind: "close", Conn: 0, Fault: "read2"}, {Kind: "hb", Client: 0}, {Kind: "close", Conn: 1, Fault: "read1"}}},
+		// (a) a1 on node 1, b1 on node 2, second handshake on the still-open a1; (b) silence longer than the lifetime, second handshake
+		{Nodes: 2, TTLms: 30000, Ops: []Op{{Kind: "connect", Client: 0, Node: 0, Mode: "good"}, {Kind: "connect", Client: 0, Node: 1, Mode: "good"}, {Kind: "relogin", Conn: 0}, {Kind: "close", Conn: 1}, {Kind: "close", Conn: 0}}},
+		{Nodes: 2, TTLms: shortTTLms, Ops: []Op{{Kind: "connect", Client: 0, Node: 0, Mode: "good"}, {Kind: "tick", FF: true}, {Kind: "tick", FF: true}, {Kind: "tick", FF: true}, {Kind: "tick", FF: true}, {Kind: "relogin", Conn: 0}, {Kind: "close", Conn: 0}}},
+		// the cloud control's runtime state is unreachable on every node; heartbeats must still keep the location records alive
+		{Nodes: 2, TTLms: shortTTLms, CloudOut: []int{0, 1}, Ops: []Op{{Kind: "connect", Client: 0, Node: 1, Mode: "good"}, {Kind: "tick", HB: []int{0}, FF: true}, {Kind: "tick", HB: []int{0}, FF: true},
+			{Kind: "tick", HB: []int{0}, FF: true}, {Kind: "tick", HB: []int{0}, FF: true}, {Kind: "tick", HB: []int{0}, FF: true}, {Kind: "close", Conn: 0}}},
 		// default lifetime (ttl argument 0)
 		{Nodes: 2, TTLms: 0, Ops: []Op{{Kind: "connect", Client: 1, Node: 1, Mode: "good"}, {Kind: "connect", Client: 1, Node: 1, Mode: "bad-secret"}, {Kind: "connect", Client: 1, Node: 0, Mode: "tunnel-type"}, {Kind: "close", Conn: 0}}},
 	} {
